@@ -58,10 +58,11 @@ _cache: Dict[str, Summary] = {}
 
 
 def summary_of(prog: Program, c: ClassInfo) -> Summary:
-    key = f"{id(prog)}:{c.qual}"
-    if key not in _cache:
-        _cache[key] = summarize(prog, c.qual)
-    return _cache[key]
+    # cached on the program object (ids of collected programs are reused within one self-test process)
+    cache = prog.__dict__.setdefault("_c01_summaries", {})
+    if c.qual not in cache:
+        cache[c.qual] = summarize(prog, c.qual)
+    return cache[c.qual]
 
 
 def _definer(prog: Program, c: ClassInfo) -> str:
